@@ -126,5 +126,18 @@ CLAIMS = {
          "histories by the representation-invariant argument stated in evidence (not mechanised). Coefficients abstract: correctness of the coefficients "
          "themselves is C01/C07. Floats are reals.",
     technique="real generators executed on symbolic state (concolic shim) over all operation sequences up to a bound; representation invariant Gen(cur) vs the real batch solver as specification; sympy polynomial identities (+ random exact rational points for the rational-function configurations); bounded float histories"),
+ "C17": dict(
+    text="The real SolveNewmark (constructor, def_nonlin, tsolve) is executed on fully symbolic m, b, k (diagonal or full, mass None/given/singular), h, "
+         "forces, initial conditions and nonlinear terms (quadratic/linear in displacement and backward-difference velocity) for 2 dynamic equations "
+         "(+ residual flexibility), nt = 2..4: every d, v, a and z entry equals the documented recurrence evaluated independently (start-up u_-1, F_0, "
+         "F_-1, three-point averaging, N_{n+1}, extrapolated last step, central differences), decided as polynomial identities; from the coefficients "
+         "the real _newmark_precalcs returns: A, A1, A0 are the documented matrices, the Jury conditions hold for all m,b,k>=0, h>0 (z3 NRA; strict when "
+         "damped) and the scalar recurrence is second-order consistent. cd_as_force/SolveCDF: the real __init__ (get_su_coef under contract) gives "
+         "alpha = Co(I+Bp Co)^-1 for non-symmetric Co, the real tsolve satisfies the documented implicit recurrence pair and M a+(diag b+Co)v+K d=F at "
+         "every step, and reduces to the SolveUnc recurrence when Co = 0. Convergence under step halving and bit-identity of SolveCDF/SolveUnc for "
+         "diagonal damping: bounded float checks.",
+    note="Trusted: sympy, z3, symbolic shims, lu_factor/lu_solve/solve contracts. Sizes fixed (2 equations, nt<=4), values symbolic; A=M/h^2+B/(2h)+K/3 "
+         "re-parametrised as the free symbol (WLOG). Floats are reals. Not covered: global convergence rates for coupled/nonlinear systems.",
+    technique="real solver classes executed on symbolic inputs against the documented recurrence evaluated independently (sympy polynomial identities modulo a determinant relation); z3 NRA for stability; series for order"),
 }
 NOT_APPLICABLE = {}
